@@ -831,7 +831,64 @@ def r11_topped_up_count(repo: Repo, rep):
             rep.saw(f)
 
 
+def r12_interval_boundary_grid(repo: Repo, rep):
+    R = rep.rule("R-C02-12", "the grid of an interval's boundary has exactly n points for every n (odd ones and n = 1 included), alternating between the two ends - by partial evaluation", floor=5,
+                 why="a mask of 2*(n//2) entries yields n-1 points for odd n: the sampler returns the wrong count and products lose rows")
+    from ..absdom.listeval import Evaluator, Opaque, UNKNOWN
+    ci = repo.cls("problem.domains.domain1D.interval.IntervalBoundary")
+    fi = ci.methods.get("sample_grid")
+    if fi is None:
+        raise AnalysisError("IntervalBoundary.sample_grid vanished")
+    rep.saw(fi)
+
+    def on_call(e, name, args, kws, ev, f):
+        args = args or []
+        if name in ("torch.tensor", "torch.as_tensor") and args and isinstance(args[0], list):
+            return list(args[0])
+        if isinstance(e.func, ast.Attribute) and e.func.attr in ("repeat", "tile", "repeat_interleave") and len(args) == 1 and isinstance(args[0], int):
+            try:
+                recv = ev.ev(e.func.value, f)
+            except Exception:
+                return None
+            if isinstance(recv, list):
+                return list(recv) * args[0] if e.func.attr != "repeat_interleave" else [x for x in recv for _ in range(args[0])]
+        if name == "torch.where" and len(args) == 3 and isinstance(args[0], list):
+            return ["L" if m else "U" for m in args[0]]
+        if isinstance(e.func, ast.Attribute) and e.func.attr in ("reshape", "view", "to", "bool") :
+            try:
+                recv = ev.ev(e.func.value, f)
+            except Exception:
+                return None
+            if isinstance(recv, list):
+                return recv
+        if name == "Points" and args:
+            return ("Points", args[0])
+        if name.endswith("lower_bound"):
+            return Opaque("lb")
+        if name.endswith("upper_bound"):
+            return Opaque("ub")
+        return None
+    for n in (1, 2, 3, 4, 5, 7, 8):
+        env = {"self": Opaque("self"), "n": n, "d": None, "params": Opaque("params"), "device": "cpu"}
+        fr = Evaluator(None, on_call).run(fi.node.body, env, attrs={"self.space.dim": 1, "self.space": Opaque("space")})
+        got = fr.ret
+        if not (isinstance(got, tuple) and got and got[0] == "Points" and isinstance(got[1], list)):
+            rep.undecided(R, fi.site(), fi.fq, f"n = {n}: grid evaluable", repr(got)[:80])
+            continue
+        pts = got[1]
+        alt = all(pts[i] != pts[i + 1] for i in range(len(pts) - 1))
+        rep.check(R, len(pts) == n and alt, fi.site(), fi.fq, f"n = {n}: {n} points alternating between the ends", f"{len(pts)} points {pts[:6]}", f"n={n}: {len(pts)} points")
+
+
 def run(repo: Repo, rep):
+    from .generic import g_arg_constructor_parameters
+    g_arg_constructor_parameters(repo, rep, lambda m: ".samplers." in m, floor=10,
+                                 why="a sampler that ignores n_points / density / filter_fn / params-related arguments returns another number of rows than requested")
+    r12_interval_boundary_grid(repo, rep)
+    from .c01 import r1_facts  # row-wise selection between operand samples keeps row i for parameter row i (masks applied to the rows they were computed on)
+    r1_facts(repo, rep)
+    from .c15 import r1_static  # a static sampler hands the caller's parameters to the wrapped sampler: n points per parameter row
+    r1_static(repo, rep)
     r10_source_data(repo, rep)
     r11_topped_up_count(repo, rep)
     from .c15 import r2_adaptive  # adaptive samplers replace rows in place under one mask: the row <-> parameter-row blocks stay where they are
